@@ -8,6 +8,7 @@ SPEC = {
         "C02_routing_total_strict", "C02_routing_total_relaxed",
         "C02_lines_strict", "C02_lines_relaxed", "C02_lines_oracle", "C02_positions_total",
         "C02_render_total", "C02_render_expand_total", "C02_console_in_bounds", "C02_error_report_renders_strict",
+        "C02_inject_no_panic_iff", "C02_inject_renders", "C02_inject_lines_in_file", "C02_inject_lines_complete",
         "C02_nonvacuous", "C02_lines_nonvacuous"],
         "Properties.C19": ["C19_relaxed_total"]},
     "harness_args": lambda tier: ["C02", "--n", 400, "--bin-variants", 1] if tier == "quick" else ["C02", "--n", 8000, "--bin-variants", 4],
